@@ -148,6 +148,38 @@ def classify_c01(step, detail, root):
     return f'desync:{detail}:{step["op"]}:{step["kind"]}'
 
 
+def dangling_before_target(step, before_src):
+    """True when the physical line(s) directly above the edited statement position (skipping blank, comment-only and backslash-only
+    lines) end in a backslash: the previous statement's text ends in a line continuation that runs into the edited position."""
+    import re
+    try:
+        tree = ast.parse(before_src if not before_src.endswith('\\\n') else before_src + '\n')
+        path = step['path']
+        try:
+            node = edits_resolve(tree, path)
+            line = min([node.lineno] + [d.lineno for d in getattr(node, 'decorator_list', [])])
+        except Exception:
+            par = edits_resolve(tree, path[:-1])
+            lst = getattr(par, path[-1][0])
+            line = (lst[-1].end_lineno + 1) if lst else par.lineno + 1
+        lines = before_src.split('\n')
+        k = line - 2
+        while k >= 0 and (not lines[k].strip() or lines[k].strip().startswith('#') or lines[k].strip() == '\\'):
+            if lines[k].strip() == '\\':
+                return True
+            k -= 1
+        if k >= 0 and lines[k].rstrip().endswith('\\') and '#' not in lines[k]:
+            return True
+        # the statement itself may be the one that ends in the continuation (its last line)
+        try:
+            endl = edits_resolve(tree, path).end_lineno
+            return lines[endl - 1].rstrip().endswith('\\') and '#' not in lines[endl - 1]
+        except Exception:
+            return False
+    except Exception:
+        return bool(re.search(r'\\\n([ \t]*\\\n)*[ \t]*(#[^\n]*)?(\n|$)', before_src))
+
+
 def check_after(ctx, FST, root, step, before_src, prop='C01', classify=classify_c01):
     """Shared C01 oracle call (also used as sub-oracle by other properties). Returns True if in sync/unsupported."""
     from ..base import insync, first_diff, D, ref_for_root, short
@@ -165,7 +197,7 @@ def check_after(ctx, FST, root, step, before_src, prop='C01', classify=classify_
     import re
     ws = set(''.join(re.findall(r'^[ \t]+(?=\S)', before_src, re.M)))
     step = dict(step, before_src=before_src, before_mixed_indent=len(ws) > 1,
-                before_dangling_continuation=bool(re.search(r'\\\n[ \t]*(\n|$)', before_src)))
+                before_dangling_continuation=dangling_before_target(step, before_src) if step.get('kind') == 'stmt' else bool(re.search(r'\\\n([ \t]*\\\n)*[ \t]*(#[^\n]*)?(\n|$)', before_src)))   # a continuation that runs into an empty or comment-only line
     key = classify(step, detail, root)
     ctx.violation(key, f'after {step["op"]} on {step["ptype"]}.{step["field"]} ({step["ttype"]}) form={step["form"]} '
                   f'code={short(step.get("code"), 80)!r} opts={step["opts"]}: {detail}; src={short(root.src, 300)!r} diff={diff}',
